@@ -34,7 +34,7 @@ LEVEL_TEXT = (
     "compute_form_data(...).preprocessed_form must equal those of the fresh-counter process."
 )
 LEVEL_NOTE = (
-    "trusted: the recipe interpreter (same data in every process), json/subprocess/fork; counters are pre-set through "
+    "trusted: the recipe interpreter (same data in every process), json/subprocess; counters are pre-set through "
     "the class attributes named in the property anchors and verified through .count()/.ufl_id(); sampled, not exhaustive"
 )
 RULE = (
@@ -47,11 +47,11 @@ ASSUMPTIONS = [
     "'same form built the same way' = the same recipe program interpreted by the same interpreter; relative creation order of the recipe's own objects is kept in every history",
     "a build or an analysis that raises with the same exception type in both histories is counted as rejected, not judged",
     "compute_form_data is called with default options (and with pull-backs, scaling and geometry lowering for half of the recipes)",
-    "histories that share a hash seed are forked from one driver process after `import ufl` (separate processes, same interpreter start); other interpreter starts are covered by the additional driver processes",
+    "every history is a separate interpreter start (python -c ...) with its own PYTHONHASHSEED",
 ]
 BUDGET = {"quick": 70, "thorough": 400}
-NCASES = {"quick": 32, "thorough": 64}
-BATCH = {"quick": 10, "thorough": 24}
+NCASES = {"quick": 16, "thorough": 32}
+BATCH = {"quick": 20, "thorough": 48}
 EVAL_COUNTER = "pairs_compared"
 FLOORS = {
     "quick": {
@@ -59,7 +59,7 @@ FLOORS = {
         "pairs_compared": 4000,
         "pairs_straddling_power_of_ten": 1500,
         "pairs_other_hashseed": 1000,
-        "pairs_other_interpreter_start": 2000,
+        "pairs_same_history_other_interpreter_start": 100,
         "pairs_with_foreign_objects": 1000,
         "pairs_other_build_order": 500,
         "sig_compared": 4000,
@@ -78,7 +78,7 @@ FLOORS = {
         "pairs_compared": 70000,
         "pairs_straddling_power_of_ten": 25000,
         "pairs_other_hashseed": 15000,
-        "pairs_other_interpreter_start": 30000,
+        "pairs_same_history_other_interpreter_start": 1500,
         "pairs_with_foreign_objects": 15000,
         "pairs_other_build_order": 8000,
         "sig_compared": 70000,
@@ -104,31 +104,28 @@ OBSERVABLES = [
 
 
 def histories(tier):
-    """List of (kind, boundary, hashseed, order, driver) - index 0 is the reference.
-
-    One driver process (interpreter start) per distinct (hashseed, driver).
-    """
-    H = [("fresh", None, "0", "natural", "a")]
+    """List of (kind, boundary, hashseed, order) - index 0 is the reference; one interpreter start each."""
+    H = [("fresh", None, "0", "natural")]
     if tier == "quick":
-        H += [("fresh", None, s, "natural", "a") for s in ("1", "2", "3")]
-        H += [("fresh", None, "0", "natural", "b"), ("fresh", None, "0", "reversed", "b")]
-        H += [("shift", b, "0", "natural", d) for b in (10, 100, 1000) for d in "ab"]
-        H += [("noise", None, "0", "natural", d) for d in "ab"]
-        H += [("shift+noise", b, "0", "natural", "b") for b in (10, 100, 1000)]
-        H += [("shift+noise", 10, "1", "shuffled", "a"), ("shift+noise", 100, "2", "shuffled", "a"), ("shift+noise", 1000, "3", "shuffled", "a")]
+        H += [("fresh", None, s, "natural") for s in ("1", "2", "3")]
+        H += [("fresh", None, "0", "natural"), ("fresh", None, "0", "reversed")]
+        H += [("shift", b, "0", "natural") for b in (10, 100, 1000) for _ in range(2)]
+        H += [("noise", None, "0", "natural") for _ in range(2)]
+        H += [("shift+noise", b, "0", "natural") for b in (10, 100, 1000)]
+        H += [("shift+noise", 10, "4", "shuffled"), ("shift+noise", 100, "5", "shuffled")]
     else:
-        H += [("fresh", None, str(s), "natural", "a") for s in range(1, 11)]
-        H += [("fresh", None, "0", "natural", "b"), ("fresh", None, "0", "natural", "c")]
-        H += [("fresh", None, "0", "reversed", "a"), ("fresh", None, "0", "shuffled", "b"), ("fresh", None, "0", "shuffled", "c")]
-        H += [("shift", b, "0", "natural", "abc"[k % 3]) for b in (10, 100, 1000) for k in range(6)]
-        H += [("noise", None, "0", "natural", "abc"[k % 3]) for k in range(8)]
-        H += [("shift+noise", b, "0", "natural", "abc"[k % 3]) for b in (10, 100, 1000) for k in range(4)]
-        H += [("shift+noise", b, str(1 + k), "shuffled", "a") for k, b in enumerate((10, 100, 1000, 10, 100, 1000, 10, 100, 1000, 10))]
+        H += [("fresh", None, str(s), "natural") for s in range(1, 11)]
+        H += [("fresh", None, "0", "natural"), ("fresh", None, "0", "natural")]
+        H += [("fresh", None, "0", "reversed"), ("fresh", None, "0", "shuffled"), ("fresh", None, "0", "shuffled")]
+        H += [("shift", b, "0", "natural") for b in (10, 100, 1000) for _ in range(6)]
+        H += [("noise", None, "0", "natural") for _ in range(8)]
+        H += [("shift+noise", b, "0", "natural") for b in (10, 100, 1000) for _ in range(4)]
+        H += [("shift+noise", b, str(11 + k), "shuffled") for k, b in enumerate((10, 100, 1000, 10, 100, 1000, 10, 100, 1000, 10))]
     return H
 
 
 def history_kind(h):
-    kind, _b, hs, order, driver = h
+    kind, _b, hs, order = h
     differs = []
     if kind != "fresh":
         differs.append("counters")
@@ -137,7 +134,7 @@ def history_kind(h):
     if order != "natural":
         differs.append("build-order")
     if not differs:
-        return "interpreter-start" if driver != "a" else "same-history"
+        return "interpreter-start"
     if len(differs) == 1:
         return differs[0]
     return "combined"
@@ -149,16 +146,17 @@ _CHILD = (
 )
 
 
-def run_driver(recipes, hists, hashseed, timeout, pyc):
-    """One interpreter start; returns {history index: results or None}."""
+def run_child(recipes, confs, order, hashseed, timeout, pyc):
+    """One interpreter start; returns {recipe index: observation} or None on timeout."""
     env = dict(os.environ)
     env["PYTHONHASHSEED"] = hashseed
     env["PYTHONPATH"] = VERIF_DIR + os.pathsep + env.get("PYTHONPATH", "")
     env["VERIF_REPO"] = REPO_DIR
-    # byte code of the tree under test is cached in a scratch directory of this case (never in /repo)
+    # byte code of the tree under test is cached in a scratch directory of this case (never in /repo);
+    # ufl is imported before vf because vf switches byte code writing off
     env.pop("PYTHONDONTWRITEBYTECODE", None)
     env["PYTHONPYCACHEPREFIX"] = pyc
-    job = json.dumps({"recipes": recipes, "histories": hists, "canon": True})
+    job = json.dumps({"recipes": recipes, "confs": confs, "order": order, "canon": True})
     try:
         p = subprocess.run(
             [sys.executable, "-c", _CHILD, REPO_DIR],
@@ -177,7 +175,7 @@ def run_driver(recipes, hists, hashseed, timeout, pyc):
             if os.path.realpath(os.path.dirname(r["ufl"])) != os.path.realpath(os.path.join(REPO_DIR, "ufl")):
                 raise HarnessError("child imported ufl from " + r["ufl"])
             return r["res"]
-    raise HarnessError("driver process gave no result (rc=%s): %s" % (p.returncode, p.stderr.decode(errors="replace")[-1500:]))
+    raise HarnessError("child process gave no result (rc=%s): %s" % (p.returncode, p.stderr.decode(errors="replace")[-1500:]))
 
 
 # ---------------------------------------------------------------- diagnostics (mechanism of a difference)
@@ -304,33 +302,26 @@ def case(ctx, i, rng):
     digs = [recipe_digest(r) for r in recipes]
     H = histories(tier)
     confs_all = []
-    drivers = {}
-    for hi, h in enumerate(H):
-        kind, boundary, hashseed, order, driver = h
-        crng = random.Random(rng.getrandbits(64))
-        confs = [gen_conf(crng, kind, boundary, r["nown"]) for r in recipes]
-        idx = list(range(R))
-        if order == "reversed":
-            idx.reverse()
-        elif order == "shuffled":
-            crng.shuffle(idx)
-        confs_all.append(confs)
-        drivers.setdefault((hashseed, driver), []).append({"hi": hi, "confs": confs, "order": idx})
     results = [None] * len(H)
     pyc = tempfile.mkdtemp(prefix="vf_c12_pyc_")
     try:
-        for n, ((hashseed, driver), hists) in enumerate(drivers.items()):
-            if n > 0 and ctx.time_left() < 5:
-                ctx.count("histories_not_run_time_budget", len(hists))
+        for hi, h in enumerate(H):
+            kind, boundary, hashseed, order = h
+            crng = random.Random(rng.getrandbits(64))
+            confs = [gen_conf(crng, kind, boundary, r["nown"]) for r in recipes]
+            idx = list(range(R))
+            if order == "reversed":
+                idx.reverse()
+            elif order == "shuffled":
+                crng.shuffle(idx)
+            confs_all.append(confs)
+            if hi > 0 and ctx.time_left() < 3:
+                ctx.count("histories_not_run_time_budget")
                 continue
-            res = run_driver(recipes, hists, hashseed, 90 + 2 * R * len(hists), pyc)
-            ctx.count("driver_processes")
-            if res is None:
-                ctx.count("driver_timeouts")
-                continue
-            for hst in hists:
-                results[hst["hi"]] = res.get(str(hst["hi"]))
-                ctx.count("forked_processes")
+            results[hi] = run_child(recipes, confs, idx, hashseed, 60 + 5 * R, pyc)
+            ctx.count("child_processes")
+            if results[hi] is None:
+                ctx.count("child_timeouts")
     finally:
         shutil.rmtree(pyc, ignore_errors=True)
     ref = results[0]
@@ -388,8 +379,8 @@ def case(ctx, i, rng):
                 ctx.count("pairs_straddling_power_of_ten")
             if h[2] != "0":
                 ctx.count("pairs_other_hashseed")
-            if (h[2], h[4]) != ("0", "a"):
-                ctx.count("pairs_other_interpreter_start")
+            if hk == "interpreter-start":
+                ctx.count("pairs_same_history_other_interpreter_start")
             if b.get("noise_made"):
                 ctx.count("pairs_with_foreign_objects")
                 ctx.count("foreign_objects_created", b["noise_made"])
